@@ -1106,7 +1106,8 @@ def rule_optional_override(ctx: Ctx, prog: Program) -> None:
                                 v = st.value
                                 self_resolving = (isinstance(v, ast.IfExp) and any(isinstance(y, ast.Name) and y.id == x.id for y in ast.walk(v.test))) or \
                                     (isinstance(v, ast.BoolOp) and isinstance(v.values[0], ast.Name) and v.values[0].id == x.id)
-                                if x.id in known_none or self_resolving:
+                                derived = any(isinstance(y, ast.Name) and y.id == x.id for y in ast.walk(v))  # `p = list(p)`, `p = p`: the given value, normalised
+                                if x.id in known_none or self_resolving or derived:
                                     ctx.ok("R-OPTIONAL-ZERO", f"{f.qualname}: '{x.id}' is given its default only when it is None", nontrivial=False)
                                 else:
                                     ctx.violation("R-OPTIONAL-ZERO", f.path, f.qualname, f"given-argument-overwritten:{x.id}", f"{f.path}:{st.lineno}",
@@ -1119,6 +1120,13 @@ def rule_optional_override(ctx: Ctx, prog: Program) -> None:
 
 
 # ------------------------------------------------------------------------------------------ R-DECISION-COVER
+def _full_range(e: ast.Call, counts: Set[str]) -> bool:
+    a = [ast.unparse(x) for x in e.args]
+    if e.keywords:
+        return False
+    return (len(a) == 1 and a[0] in counts) or (len(a) == 2 and a[0] == "0" and a[1] in counts) or (len(a) == 3 and a[0] == "0" and a[1] in counts and a[2] == "1")
+
+
 def rule_decision_cover(ctx: Ctx, prog: Program) -> None:
     """The search reports a solution when *every* shared domain is a single value (is_solved scans the whole top level of the stack) and it
     branches only on the decision domains.  With the decision set left to its default, 'all domains', nothing else instantiates a shared
@@ -1154,15 +1162,11 @@ def rule_decision_cover(ctx: Ctx, prog: Program) -> None:
         e = strip(d)
         full = False
         if isinstance(e, ast.Call) and ast.unparse(e.func) in ("range", "np.arange", "numpy.arange"):
-            a = e.args
-            if len(a) == 1 and ast.unparse(a[0]) in counts:
-                full = True
-            if len(a) == 2 and ast.unparse(a[0]) == "0" and ast.unparse(a[1]) in counts:
-                full = True
+            full = _full_range(e, counts)
         if isinstance(e, ast.ListComp) and len(e.generators) == 1 and not e.generators[0].ifs and isinstance(e.elt, ast.Name) \
                 and isinstance(e.generators[0].target, ast.Name) and e.elt.id == e.generators[0].target.id:
             e2 = strip(e.generators[0].iter)
-            full = isinstance(e2, ast.Call) and ast.unparse(e2.func) == "range" and len(e2.args) == 1 and ast.unparse(e2.args[0]) in counts
+            full = isinstance(e2, ast.Call) and ast.unparse(e2.func) == "range" and _full_range(e2, counts)
         if full:
             ctx.ok("R-DECISION-COVER", f"the default decision set is `{ast.unparse(d)}`: every shared domain is_solved looks at is branched on")
             continue
